@@ -210,9 +210,10 @@ class Phrase(qcore.Query):
     def replace(self, fieldname, oldtext, newtext):
         q = copy.copy(self)
         if q.fieldname == fieldname:
-            for i, word in enumerate(q.words):
-                if word == oldtext:
-                    q.words[i] = newtext
+            # copy.copy() shares the list of words with the original query:
+            # build a new list instead of assigning into the shared one
+            q.words = [newtext if word == oldtext else word
+                       for word in q.words]
         return q
 
     def _and_query(self):
